@@ -51,6 +51,12 @@ def check_c14(tier):
             for t in ref.txs.values():
                 if t.coding and r.random() < 0.5:
                     t.tags.append('cds_start_NF')
+        if r.random() < 0.6:
+            # an antisense (or sense) non-coding gene overlapping an existing transcript: one site, two genes
+            t0 = r.choice(list(ref.txs.values()))
+            s0, e0 = t0.exons[0]
+            sub = [(s0 + 1, max(s0 + 3, e0 - 1))] if e0 - s0 > 6 else None
+            refgen.add_shadow(ref, t0, strand=r.choice([1, -1]), exons=sub if r.random() < 0.5 else None)
         d = os.path.join(work, f'r{i}')
         paths = ref.write(d)
         genes, txs = ref.features()
@@ -62,8 +68,9 @@ def check_c14(tier):
                 vep.append(dict(location=ev['location'], allele=ev['allele'], gene=g['id'], tx=t['id']))
                 vm.append(dict(tool='vep', chrom=list(chrom), gene=dict(start=g['start'], end=g['end'], strand=g['strand']),
                                tx=tx_spec(t), loc=ev['loc'], allele=list(ev['allele']), startNF='cds_start_NF' in t['tags']))
+        gindex = {g['id']: k + 1 for k, g in enumerate(genes)}
         for g in genes:
-            gtx = [t for t in txs if t['gene'] == g['id']]
+            gtx = list(txs)        # a row may list transcripts of every gene overlapping the site
             for pos in range(g['start'], g['end']):
                 if r.random() < (0.5 if tier == 'quick' else 1.0):
                     continue
@@ -91,8 +98,9 @@ def check_c14(tier):
                 redi.append(dict(chrom='chr1', position=pos + 1, reference=refb, strand=1, coverage=sum(counts), counts=counts,
                                  subs=subs, gcov=gcov, txs=[t['id'] for t in sel], **th))
                 num = {0.0625: [1, 16], 0.125: [1, 8], 0.25: [1, 4], 0.5: [1, 2]}[th['min_frequency_alt']]
-                rm.append(dict(tool='redi', gene=dict(start=g['start'], end=g['end'], strand=g['strand']),
-                               txs=[tx_spec(t) for t in sel], txids=[t['id'] for t in sel], pos=pos, counts=counts,
+                rm.append(dict(tool='redi', genes=[dict(start=x['start'], end=x['end'], strand=x['strand']) for x in genes],
+                               geneids=[x['id'] for x in genes],
+                               txs=[dict(tx_spec(t), gene=gindex[t['gene']]) for t in sel], txids=[t['id'] for t in sel], pos=pos, counts=counts,
                                subs=[[a, b] for a, b in subs], gcov=-2 if gcov is None else gcov, minCovAlt=th['min_coverage_alt'],
                                minFreq=num, minCovRna=th['min_coverage_rna'], minCovDna=th['min_coverage_dna']))
         jl.append(dict(paths=paths, vep=vep, redi=redi))
@@ -116,7 +124,9 @@ def check_c14(tier):
                 continue
             c = dict(c)
             ids = c.pop('txids')
-            c['records'] = [dict(tx=ids.index(x['tx']) + 1, start=x['start'], ref=x['ref'][0], alt=x['alt'][0]) for x in o['records']]
+            gids = c.pop('geneids')
+            c['records'] = [dict(tx=ids.index(x['tx']) + 1, gene=gids.index(x['gene']) + 1 if x['gene'] in gids else 0,
+                                 start=x['start'], ref=x['ref'][0], alt=x['alt'][0]) for x in o['records']]
             cases.append(c)
             info.append((ref, v, o))
     verdicts = tlc_cases('VepTrace', cases, work, 'vep', rep)
